@@ -33,6 +33,7 @@ POLY = {
     "notchtri": [(1, 1), (3, 1), (1, 3)],  # all vertices on the boundary of `ell`, interior in its notch
     "hbar": [(-3, F(-1, 2)), (3, F(-1, 2)), (3, F(1, 2)), (-3, F(1, 2))],
     "vbar": [(F(-2, 3), -2), (F(1, 3), -2), (F(1, 3), 2), (F(-2, 3), 2)],
+    "sliver": [(1, F(1, 2000)), (3, F(1, 2000)), (3, 1), (1, 1)],  # half a millimetre above the base line of `square` in a drawing in metres
     "small": [(F(1, 2), F(1, 2)), (F(3, 2), F(1, 2)), (F(3, 2), F(3, 2)), (F(1, 2), F(3, 2))],
 }
 
